@@ -100,6 +100,10 @@ func keywordToken(b []byte) ([]byte, int) {
 		case '0', '1', '2', '3', '4', '5', '6', '7', '8', '9', '-':
 			// Numeric tokens
 			if v, id := tokFloatRule(b); len(v) > 0 {
+				if _, err := tryParseFloat(v); err != nil {
+					// Matches the pattern but is out of range.
+					return v, INVALID
+				}
 				return v, id
 			}
 			v, id := tokIntRule(b)
